@@ -116,11 +116,30 @@ def cast(t, v):
     return v
 
 
+class CArray(list):
+    """A C array / memoryview row: no negative-index wrap-around, an index
+    outside the buffer is an OutOfBounds finding (boundscheck(False) code)."""
+
+    def _chk(self, i):
+        if isinstance(i, slice):
+            return i
+        i = _idx(i)
+        if not 0 <= i < len(self):
+            raise OutOfBounds("array index %d of %d" % (i, len(self)))
+        return i
+
+    def __getitem__(self, i):
+        return list.__getitem__(self, self._chk(i))
+
+    def __setitem__(self, i, v):
+        list.__setitem__(self, self._chk(i), v)
+
+
 def cvarray(shape, itemsize, format, **kw):
     if len(shape) == 1:
-        return [0] * shape[0].__index__()
+        return CArray([0] * shape[0].__index__())
     if len(shape) == 2:
-        return [[0] * shape[1].__index__() for _ in range(shape[0].__index__())]
+        return CArray([CArray([0] * shape[1].__index__()) for _ in range(shape[0].__index__())])
     raise Unsupported("cvarray rank")
 
 
